@@ -22,7 +22,7 @@ from checks import validgen as vg
 from checks import validcomp as vc
 from checks.validcomp import COMP, NO_STATE, PRESENT, MULTI, OPER
 
-LEAN_TARGETS = ["LyModel.Props.C07"]
+LEAN_TARGETS = ["LyModel.Props.C07", "LyModel.Props.C07Valdiff", "LyModel.Props.C07Completion"]
 AUDIT = "Audit/C07.lean"
 GENERATED = ["ValidConsts", "Consts"]
 HARNESS = "api_norm"
@@ -48,8 +48,11 @@ def classify(component, what, case):
     if law == "accepts" and case.get("errors", "").startswith("Other:") and "userord-default-recreated" in feat:
         # F194: the re-created user-ordered defaults sit in a non-presence container nested in the replaced default container
         return "F194" if "np-container-given-as-new-instance" in feat and "userord-default-recreated-nested" in feat else "F178"
-    if law in ("valdiff-eq", "valdiff-apply") and ("np-container-given-as-new-instance" in feat or "default-np-container-removed" in feat):
+    if law in ("valdiff-eq", "valdiff-apply") and "np-container-given-as-new-instance" in feat:
         return "F179"
+    if law in ("valdiff-eq", "valdiff-apply") and "default-np-container-removed" in feat:
+        # part (b) of F179: the leftover default non-presence container of a case goes unrecorded (repair: fixes/F400.diff)
+        return "F400"
     if law == "implicit" and "missing-defaults-of-a-case-whose-data-sits-in-a-nested-choice" in feat:
         return "F180"
     if law in ("idempotent", "idempotent-tree", "implicit", "valdiff-eq") and "default-np-container-left-in-non-default-case" in feat:
@@ -91,6 +94,7 @@ def run(cx):
     when_family(cx)
     case_npcont_family(cx)
     case_defaults_family(cx)
+    valdiff_shapes_family(cx)
 
 
 # ---- law-only family: defaults guarded by `when` (on the node, on its choice, on its case, on a non-presence container) ------------
@@ -377,6 +381,55 @@ def case_defaults_family(cx):
     process(cx, schemas, hists)
 
 
+def valdiff_shapes_family(cx):
+    """The witnesses of the `_fails` theorems of Props/C07Valdiff.lean (F177, F179 a, F194, F400 = F179 b), the same schemas and
+    histories, replayed on libyang through the ordinary pipeline (model + laws), each with small variations (values, a second
+    default, the position of the default-less leaf): every excluded shape of `valdiff_exact_partial` is seen to fail in the C."""
+    rng = cx.sub_rng("vdshapes")
+    S, T = tg.SNode, tg.Ty
+    st = T("string")
+    schemas, hists = [], []
+    NEWINST = "np-container-given-as-new-instance"
+    for i in range(cx.n(4, 12)):
+        v = rng.choice([b"x", b"yy", b"1"])
+        # F177: container c { config false; list l { leaf a { default }; leaf b; } }
+        a, b = S("leaf", "a", ty=st, dflt=rng.choice([b"1", b"dd"]), config=False), S("leaf", "b", ty=st, config=False)
+        l = S("list", "l", kids=[a, b] if i % 2 == 0 else [b, a], config=False, userord=True)
+        c = S("container", "c", kids=[l], config=False)
+        s = vg.XSchema("vsa%02d" % i, [c])
+        schemas.append(s)
+        hists.append(Hist(s, ["C:-:%s" % tg.tok([tg.DN(c, None, [tg.DN(l, None, [tg.DN(b, v)])])]), "V"], [], [[] for _ in range(4)], 0))
+        # F179 a: container c { container d { leaf f { default }; leaf g { default }; } }: a second, explicit d next to the default one
+        f, g = S("leaf", "f", ty=st, dflt=b"t"), S("leaf", "g", ty=st, dflt=b"x")
+        d = S("container", "d", kids=[f, g] + ([S("leaf", "h", ty=st, dflt=b"h")] if i % 3 == 0 else []))
+        c = S("container", "c", kids=[d])
+        s = vg.XSchema("vsb%02d" % i, [c])
+        schemas.append(s)
+        hists.append(Hist(s, ["C:-:%s" % tg.tok([tg.DN(c, None, [])]), "V", "C:%d:%s" % (c.sid, tg.tok([tg.DN(d, None, [tg.DN(f, rng.choice([b"t", v]))])])), "V"],
+                          [], [[], [NEWINST], [], []], 0))
+        # F194: container c2 { leaf f16; container c17 { leaf-list ll19 { ordered-by user; default a; default x; } } }: a second, explicit c2
+        f16 = S("leaf", "f16", ty=st)
+        ll = S("leaflist", "ll19", ty=st, userord=True, dflts=[b"a b", b"x"] if i % 2 else [b"a", b"x"])
+        c17 = S("container", "c17", kids=[ll])
+        c2 = S("container", "c2", kids=[f16, c17])
+        s = vg.XSchema("vsc%02d" % i, [c2])
+        schemas.append(s)
+        hists.append(Hist(s, ["C:-:%s" % tg.tok([tg.DN(c2, None, [])]), "V", "C:-:%s" % tg.tok([tg.DN(c2, None, [tg.DN(f16, v)])]), "V"], [], [[], [NEWINST], [], []], 0))
+        # F400 (F179 b): container top { presence; choice ch { case a { container nc { leaf e; leaf d { default }; } } case b { leaf w; } } }
+        e, dd, w = S("leaf", "e", ty=st), S("leaf", "d", ty=st, dflt=b"x"), S("leaf", "w", ty=st)
+        nc = S("container", "nc", kids=[e, dd] if i % 2 == 0 else [dd, e])
+        ch = S("choice", "ch", kids=[S("case", "a", kids=[nc]), S("case", "b", kids=[w])])
+        top = S("container", "top", presence=True, kids=[ch])
+        s = vg.XSchema("vsd%02d" % i, [top])
+        schemas.append(s)
+        hists.append(Hist(s, ["C:-:%s" % tg.tok([tg.DN(top, None, [tg.DN(nc, None, [tg.DN(e, v)])])]), "V", "D:%d/%d/%d" % (top.sid, nc.sid, e.sid), "V", "V"],
+                          [], [[] for _ in range(5)], 0))
+    base = 980000
+    for k, h in enumerate(hists):
+        h.k = base + k
+    process(cx, schemas, hists)
+
+
 def fields(reply):
     return dict(f.split("=", 1) for f in reply[1:] if "=" in f)
 
@@ -394,6 +447,7 @@ def process(cx, schemas, hists):
         return "hist:%d-validations%s" % (sum(1 for f in reply[1:] if f[0] == "T"), "+error" if any(f[0] == "E" for f in reply[1:]) else "")
     ri, rm = vc.differential(cx, HARNESS, schemas, lines, kind)
     rl = vc.run_impl(cx, HARNESS, schemas, lawl)
+    law_model(cx, schemas, hists, rl)
     # the RFC defaults of every validated tree (model only)
     specl = []
     for h in hists:
@@ -408,6 +462,73 @@ def process(cx, schemas, hists):
     spec = cx.run_model(vc.heads(schemas) + specl) if specl else {}
     for h in hists:
         eval_hist(cx, h, ri.get("h%d" % h.k, ["err", "NoReply"]), rl.get("l%d" % h.k, ["err", "NoReply"]), spec)
+
+
+def apply_fixes(cx):
+    """the repairs of lyd_diff_apply_all that are in the tree under test (the model of component `diff` has a switch for each)"""
+    return "fx=" + (",".join(sorted(f[1:] for f in ("F120", "F126", "F128") if cx.findings.get(f, {}).get("status") == "fixed")) or "-")
+
+
+def law_model(cx, schemas, hists, rl):
+    """(K) the laws themselves are predicted by the model: `Valid.runLaw` composes the model of the validation, of its change set
+    (`judge`: lyd_val_diff_add + lyd_diff_merge_all) and of lyd_diff_apply_all (component `diff`) on the INPUT tree of every
+    validation.  Compared with what libyang did (`histlaw`): idem / same / apply / exact per validation.  `sh<i>` = the hypotheses of
+    Props/C07 `valdiff_exact_partial` on that input (counted)."""
+    fx = apply_fixes(cx)
+    ml = []
+    for h in hists:
+        d, x = tg.hx(h.s.dsl()), tg.hx(h.s.xdsl())
+        ml.append("m%d %s histlaw %s %s %d %s %s" % (h.k, COMP, d, x, h.opts, fx, " ".join(h.steps)))
+    rm = cx.run_model(vc.heads(schemas) + ml) if ml else {}
+    for h in hists:
+        a, b = rl.get("l%d" % h.k, ["err", "NoReply"]), rm.get("m%d" % h.k, ["err", "NoReply"])
+        if a[0] != "ok" or a[:2] in (["err", "Crash"], ["err", "Timeout"]):
+            continue
+        if b[0] != "ok":
+            cx.disagree(COMP, ml[0][:200] + " ...", a[:6], b[:6])
+            continue
+        fa, fb = fields(a), fields(b)
+        bad = []
+        nv = sum(1 for k in fb if k.startswith("apply"))
+        for vi in range(nv):
+            cx.count(("lawmodel", h.s.name, tuple(h.steps), h.opts, vi), True, "lawmodel:validation")
+            sh = fb.get("sh%d" % vi, "------")
+            keyless, twin, incase, lost, excl, exact = (c == "1" for c in sh[:6])
+            fresh, toponly, unchanged = (c == "1" for c in (sh[6:9] if len(sh) >= 9 else "---"))
+            # which PROVED theorem of Props/C07Valdiff.lean speaks about this input (hypotheses evaluated by the model)
+            thm = "valdiff_exact_unchanged" if unchanged else ("valdiff_exact_partial_fresh" if fresh and toponly else None)
+            cx.dist["valdiff-proved:" + (thm or ("none(" + ("not-fresh" if not fresh else "changes-below-top-level") + ")"))] += 1
+            if thm and not exact:
+                cx.fail(COMP, "model: the statement of the proved theorem %s evaluates to false on an input inside its hypotheses" % thm,
+                        payload(h, "valdiff-model", vi, more=["model-law", thm]))
+            cx.dist["valdiff-hyp:" + ("excluded(" + "+".join(n for n, c in (("keyless-change", keyless), ("np-twin", twin), ("np-in-case", incase)) if c) + ")" if excl else "satisfied")] += 1
+            cx.dist["valdiff-model:" + ("exact" if exact else "NOT-exact") + ("/excluded" if excl else "/hyp")] += 1
+            if not excl and not exact:
+                # the statement of valdiff_exact_partial fails in the MODEL on an input inside its hypotheses
+                cx.fail(COMP, "model: apply input (validateDiff input) differs from validate input on an input that satisfies the hypotheses of valdiff_exact_partial",
+                        payload(h, "valdiff-model", vi, more=["model-law"]))
+            # Props/C07Completion.lean: hypotheses and statements of the whole-tree theorems on this input
+            if len(sh) >= 13:
+                nch, nst, exh, exs = (c == "1" for c in sh[9:13])
+                choicefree = not any(n.kind == "choice" for n in h.s.nodes)
+                cx.dist["implicit-tree:" + ("nochoice-theorem-applies" if nch else "explicit-half-applies" if exh else
+                                            "none(" + ("not-fresh" if not fresh else "schema-with-choice" if not choicefree else "other") + ")")] += 1
+                cx.dist["implicit-tree-model:validate=rfcComplete " + ("holds" if nst else "FAILS")] += 1
+                if (nch and not nst) or (exh and not exs):
+                    cx.fail(COMP, "model: the statement of %s evaluates to false on an input inside its hypotheses" %
+                            ("implicit_exact_tree_nochoice" if nch and not nst else "implicit_exact_tree_explicit"),
+                            payload(h, "implicit-model", vi, more=["model-law"]))
+            for key in ("idem", "same", "apply", "exact"):
+                x, y = fa.get("%s%d" % (key, vi)), fb.get("%s%d" % (key, vi))
+                if key == "idem" and x is not None and x not in ("empty", "nonempty"):
+                    x = "E"
+                if y == "dup" or (key == "exact" and fa.get("apply%d" % vi) != "Success"):
+                    cx.dist["lawmodel:not-compared(%s)" % (y if y == "dup" else "apply-failed")] += 1
+                    continue
+                if x != y:
+                    bad.append("%s%d impl=%s model=%s" % (key, vi, x, y))
+        if bad:
+            cx.disagree(COMP, ("l%d %s histlaw %s %d %s" % (h.k, COMP, tg.hx(h.s.dsl()), h.opts, " ".join(h.steps)))[:6000], bad[:8], [x for x in b if x.startswith("sh")][:8])
 
 
 def payload(h, law, vi, **kw):
